@@ -166,9 +166,12 @@ def product_game(prob, pred4, reps):
 
 
 def general_classical_value(prob, pred4):
-    """Brute force over Bob's deterministic strategies with Alice best-responding (exact)."""
+    """Brute force over the deterministic strategies of the player who has fewer of them, the other one best-responding (exact)."""
     P, V = np.asarray(prob, dtype=float), np.asarray(pred4, dtype=float)
     A, B, X, Y = V.shape
+    if A**X < B**Y:  # enumerate Alice instead: exchange the roles
+        P, V = P.T, V.transpose(1, 0, 3, 2)
+        A, B, X, Y = V.shape
     Wt = V * P[None, None, :, :]
     best = -np.inf
     for fb in itertools.product(range(B), repeat=Y):
